@@ -9,7 +9,7 @@ RULE = ("bounded-exhaustive: ALL ordered pairs of the point alphabet (identity, 
         "the subgroup incl. the order-3 point (0,+-2), their negatives and doubles) x ALL pairs of Jacobian representatives (z in {1,2,-1,filler}; "
         "identity as (0,1,0),(1,1,0),(Gx,Gy,0)) x {add, add_mixed, double, negate, equal, from_affine, from_projective, affine negate/equal} "
         "through the C API and the C++ members on 3 back ends; results normalised by the definition (x/z^2, y/z^3) in Python and compared with the "
-        "affine chord-and-tangent law. distinct by construction; non-trivial = neither operand the identity")
+        "affine chord-and-tangent law; plus crafted G1 points for which an intermediate of the doubling / mixed-addition formulas (X^2, Y^4, (x2-X1)^2 as stored residues) sits at k q / f, f in {2,3,4,8}. distinct by construction; non-trivial = neither operand the identity")
 ASSUMPTIONS = ["vlib/ref.py affine chord-and-tangent law is the ground truth", "results are compared as group elements (any Jacobian representative of the right point is accepted)"]
 CONFIGS = ["asm", "c64", "c32", "o0"]
 NAME = {1: "g1", 2: "g2"}
@@ -171,6 +171,8 @@ def shards(ctx):
                 for k in range(parts):
                     out.append({"cfg": cfg, "g": g, "op": op, "part": k, "parts": parts})
             out.append({"cfg": cfg, "g": g, "op": "unary"})
+            if g == 1:
+                out.append({"cfg": cfg, "g": g, "op": "formula-boundary"})
             out.append({"cfg": cfg, "g": g, "op": "affine"})
     return out
 
@@ -218,6 +220,20 @@ def run_shard(ctx, shard):
         for (la, P, zp), (lb, Q) in pairs:
             emit({"cfg": cfg, "g": g, "op": op, "p": enc_pt(P, g), "zp": enc_z(zp, g), "q": enc_pt(Q, g)},
                  P is not None and Q is not None, "g%d:%s:%s" % (g, op, klass(P, Q)))
+    elif op == "formula-boundary":
+        # points for which an intermediate of the doubling / mixed-addition formulas (X^2, Y^4, (x2 - X1)^2 as stored residues) sits at k q / f:
+        # the wrap-around points of the small-multiple steps 3A, 8C, 4HH (alpha.formula_boundary_points_g1)
+        FB = alpha.formula_boundary_points_g1()
+        G = ref.pt_mul(ref.G1_GEN, 5, 1)
+        for lab, P in FB["double"]:
+            emit({"cfg": cfg, "g": g, "op": "unary", "p": enc_pt(P, g), "zp": None}, True, "g1:formula-boundary:double")
+            for o in ("add", "add_c", "add_mixed", "add_mixed_c"):
+                emit({"cfg": cfg, "g": g, "op": o, "p": enc_pt(P, g), "zp": None, "q": enc_pt(P, g), "zq": None}, True, "g1:formula-boundary:" + o)
+            emit({"cfg": cfg, "g": g, "op": "add", "p": enc_pt(P, g), "zp": None, "q": enc_pt(G, g), "zq": None}, True, "g1:formula-boundary:add")
+            emit({"cfg": cfg, "g": g, "op": "add_mixed", "p": enc_pt(G, g), "zp": None, "q": enc_pt(P, g)}, True, "g1:formula-boundary:add_mixed")
+        for lab, P1, P2 in FB["mixed"]:
+            for o in ("add_mixed", "add_mixed_c", "add"):
+                emit({"cfg": cfg, "g": g, "op": o, "p": enc_pt(P1, g), "zp": None, "q": enc_pt(P2, g), "zq": None}, True, "g1:formula-boundary:" + o)
     elif op == "unary":
         for la, P, zp in R:
             emit({"cfg": cfg, "g": g, "op": "unary", "p": enc_pt(P, g), "zp": enc_z(zp, g)}, P is not None, "g%d:unary" % g)
